@@ -8,14 +8,16 @@ class Unsupported(Exception): pass
 class ContractDrift(Exception): pass
 
 def loop_signatures(fn):
-    """pre-order list of loop headers of a function (nested function bodies included, as the ordinals are)"""
+    """pre-order list of (kind, nesting depth, loop variables) of a function's loops.  The iterated expression / loop test is deliberately NOT part of
+    the signature: an edit there keeps the loop bound to its invariant and is judged by the obligations; a removed, added, re-nested or re-targeted
+    loop shifts the ordinals the invariants are bound by and is contract drift."""
     out = []
-    def walk(n):
+    def walk(n, depth):
         for c in ast.iter_child_nodes(n):
-            if isinstance(c, ast.For): out.append(f"for {ast.unparse(c.target)} in {ast.unparse(c.iter)}")
-            elif isinstance(c, ast.While): out.append(f"while {ast.unparse(c.test)}")
-            walk(c)
-    walk(fn); return out
+            if isinstance(c, ast.For): out.append(f"for {ast.unparse(c.target)} @depth {depth}"); walk(c, depth + 1)
+            elif isinstance(c, ast.While): out.append(f"while @depth {depth}"); walk(c, depth + 1)
+            else: walk(c, depth)
+    walk(fn, 0); return out
 _SIGS = None
 def loop_signatures_recorded():
     global _SIGS
